@@ -7,12 +7,19 @@ import (
 	"os"
 	"testing"
 
+	"saoverif/replica"
+
 	"pgregory.net/rapid"
 )
 
 var replayFile = flag.String("replay", "", "violation/replay JSON to re-execute without the generator")
 
 func TestMain(m *testing.M) {
+	if dir := os.Getenv("VERIF_REPLICA"); dir != "" {
+		// child process of an L3 test: serve ABCI requests on stdin/stdout
+		replica.Serve(dir)
+		os.Exit(0)
+	}
 	flag.Parse()
 	code := m.Run()
 	flushStats()
